@@ -38,7 +38,6 @@ type witness struct {
 }
 
 var witnesses = []witness{
-	{"cover0", "plain", "inline_implicit", attrKey, "k1", "inline-body-hides-implicit-credential", nil},
 	{"cover0", "svc", "bearer", attrToken, "a b", "bearer-token-with-space", nil},
 	{"cover0", "svc", "bearer", attrToken, "", "bearer-token-empty", nil},
 	{"cover0", "plain", "from_api", attrAToken, "x y z", "bearer-token-with-space", nil},
@@ -47,13 +46,15 @@ var witnesses = []witness{
 	{"cover0", "svc", "three", attrKey, "K 1", "header-apikey-with-space", nil},
 	{"cover0", "plain", "keyauth", attrKey, "Key abc", "header-apikey-with-space", nil},
 	{"cover0", "svc", "bearer", attrToken, "tok\t", "header-credential-trimmed", nil},
-	{"cover1", "svc", "basic_only", attrUser, "a:b", "basic-username-with-colon", nil},
-	{"cover1", "svc", "both", attrUser, ":", "basic-username-with-colon", nil},
-	{"cover1", "svc", "inline_body", attrToken, "tok", "inline-body-sends-whole-payload", nil},
 	// edge cases inside the hypotheses: spaces are harmless outside headers, and in Basic credentials
 	{"cover0", "svc", "three", attrToken, "a b c", "", []string{"bas"}},
 	{"cover0", "svc", "three", attrAToken, " lead trail ", "", []string{"bas", "jwt"}},
 	{"cover0", "svc", "bearer", attrKey, "q k\t", "", []string{"jwt"}},
+	// a user name holding ':' cannot be sent (RFC 7617): the client must refuse it, nothing reaches the server
+	{"cover1", "svc", "basic_only", attrUser, "a:b", "", nil},
+	{"cover1", "svc", "both", attrUser, ":", "", nil},
+	{"cover1", "svc", "either", attrUser, "x:", "", []string{"jwt"}},
+	{"cover1", "svc", "inline_body", attrToken, "to k", "", nil},
 	{"cover1", "svc", "basic_only", attrUser, "us er", "", nil},
 	{"cover1", "svc", "basic_only", attrPass, "p:w d ", "", nil},
 	{"cover1", "svc", "basic_only", attrPass, "", "", nil},
@@ -208,9 +209,7 @@ func main() {
 				res.Count("decoder_not_parsed")
 				res.Extra["last_strip_error"] = mi.Def + ": " + mi.StripErr
 			}
-			if !anyHiddenImplicit(mi.M) { // the recorded finding drops the credential before anything the model describes
-				stripLines = append(stripLines, fmt.Sprintf("(%d, L_%s, R_%s, %s)", len(stripLines), mi.Def, mi.Def, vh.CoqList(as)))
-			}
+			stripLines = append(stripLines, fmt.Sprintf("(%d, L_%s, R_%s, %s)", len(stripLines), mi.Def, mi.Def, vh.CoqList(as)))
 			res.Evaluations++
 			res.Count(fmt.Sprintf("header_credentials=%d", len(want)))
 			if len(want) > 1 {
@@ -225,11 +224,7 @@ func main() {
 				}
 			}
 			if mi.StripErr != "" || !sameStrs(mi.Strips, want) {
-				sig := "decoder-strips-wrong-fields"
-				if mi.StripErr == "" && anyHiddenImplicit(mi.M) {
-					sig = "inline-body-hides-implicit-credential"
-				}
-				res.Fail(sig, fmt.Sprintf("%s.%s: the generated request decoder removes the scheme prefix from payload fields %v (%s); the header-carried credentials of the method's requirements are %v",
+				res.Fail("decoder-strips-wrong-fields", fmt.Sprintf("%s.%s: the generated request decoder removes the scheme prefix from payload fields %v (%s); the header-carried credentials of the method's requirements are %v",
 					mi.S.Name, mi.M.Name, mi.Strips, mi.StripErr, want), map[string]any{"tier": "B", "design": mi.D, "service": mi.S.Name, "method": mi.M.Name, "stripped_fields": mi.Strips, "expected_fields": want})
 			}
 		}
@@ -271,9 +266,6 @@ func main() {
 		for _, mi := range infos {
 			if dropped[mi.Key] {
 				continue
-			}
-			if mi.M.HTTP != nil && mi.M.HTTP.Body != nil && len(mi.M.HTTP.Body.Attrs) > 0 {
-				continue // inline-object body: witness stream only (finding inline-body-sends-whole-payload)
 			}
 			eff := effectiveReqs(mi.D, mi.S, mi.M)
 			names := schemeNamesOf(eff)
@@ -349,11 +341,8 @@ func main() {
 		}
 		before := len(res.Failures)
 		idx := len(exLines)
-		line := judge(res, idx, mi, ex, ob, declared)
-		if !anyHiddenImplicit(mi.M) { // see above: outside the modelled transport
-			exLines = append(exLines, line)
-			res.Cases = append(res.Cases, ex)
-		}
+		exLines = append(exLines, judge(res, idx, mi, ex, ob, declared))
+		res.Cases = append(res.Cases, ex)
 		if strings.HasPrefix(ex.Stream, "witness:") {
 			want := strings.TrimPrefix(ex.Stream, "witness:")
 			got := false
